@@ -1,22 +1,22 @@
 #!/bin/bash
-# confirm_seed.sh <Cxx>: in the scratch worktree /tmp/mut/<Cxx> (patch applied, demo in tests/), confirm:
+# confirm_seed.sh <Cxx>: in the scratch worktree /tmp/mut2/<Cxx> (patch applied, demo in tests/), confirm:
 #  (1) the existing suite passes with the change, (2) the demo fails with the change, (3) the demo passes without it.
-P=$1; W=/tmp/mut/$P; O=/tmp/mut/$P-out
+P=$1; W=/tmp/mut2/$P; O=/tmp/mut2/$P-out
 cd $W || exit 2
 export CARGO_NET_OFFLINE=true
 demo=$(git status --porcelain | grep '^??' | awk '{print $2}' | grep -E '^(tests|examples)/.*\.rs$' | head -1)
 [ -z "$demo" ] && { echo "$P: no demo file"; exit 2; }
 name=$(basename $demo .rs)
 feat=""; grep -q "verif-hooks\|verif_hooks\|verif_synthetic" $demo && feat="--features verif-hooks"
-mkdir -p /tmp/mut/hold
+mkdir -p /tmp/mut2/hold
 # (2) demo with change
 cargo test --offline $feat --test $name > $O/confirm_demo_with.log 2>&1; rc_with=$?
 # (3) demo without change
-git diff > /tmp/mut/hold/$P.cur.diff; git apply -R /tmp/mut/hold/$P.cur.diff; cargo test --offline $feat --test $name > $O/confirm_demo_without.log 2>&1; rc_without=$?; git apply /tmp/mut/hold/$P.cur.diff
+git diff > /tmp/mut2/hold/$P.cur.diff; git apply -R /tmp/mut2/hold/$P.cur.diff; cargo test --offline $feat --test $name > $O/confirm_demo_without.log 2>&1; rc_without=$?; git apply /tmp/mut2/hold/$P.cur.diff
 # (1) suite with change (demo moved away)
-mv $demo /tmp/mut/hold/$P-$name.rs
+mv $demo /tmp/mut2/hold/$P-$name.rs
 cargo test --workspace --no-fail-fast --offline > $O/confirm_suite.log 2>&1; rc_suite=$?
 passed=$(grep -E "^test result" $O/confirm_suite.log | awk '{s+=$4} END {print s}')
 failed=$(grep -E "^test result" $O/confirm_suite.log | awk '{s+=$6} END {print s}')
-mv /tmp/mut/hold/$P-$name.rs $demo
+mv /tmp/mut2/hold/$P-$name.rs $demo
 echo "$P: demo_with_change_rc=$rc_with demo_without_change_rc=$rc_without suite_rc=$rc_suite passed=$passed failed=$failed demo=$demo feat='$feat'"
